@@ -74,6 +74,12 @@ func (zo *Object) SetProperty(name string, value r.Element) error {
 }
 
 // ExecMethod -
+// HasMethod - whether the object's type defines a method of this name
+func (zo *Object) HasMethod(name string) bool {
+	_, ok := zo.model.FindMethod(name)
+	return ok
+}
+
 func (zo *Object) ExecMethod(name string, values []r.Element) (r.Element, error) {
 	if method, ok := zo.model.FindMethod(name); ok {
 		return method.Exec(zo, values)
